@@ -257,6 +257,14 @@ class World(BaseWorld):
                                     f'{[(key(p), p.type, p.is_viable, p.is_necessary, (p.ttc or {}).get("name")) for p in n.parents]}) '
                                     f'is labelled (viable, necessary) = {got[k]}, the greatest '
                                     f'fixed point gives {exp[k]}')
+        y = getattr(self, '_younger', None)
+        if y is not None:
+            self._younger = None
+            touched = [n.full_name for n in y.nodes
+                       if n.type in ('or', 'and') and not (n.is_viable and n.is_necessary)]
+            if touched:
+                raise Violation('C08.gfp', f'{where}: analysing one graph relabelled steps of another '
+                                           f'graph built from the same model: {touched[:4]}')
         self.count('oracle:C08.order_independent')
         if self.first is None:
             self.first = got
@@ -330,6 +338,14 @@ class World(BaseWorld):
         if o.raised:
             raise SetupRejected('generate:' + o.exc_name())
         g = o.value
+        self._younger = None
+        if op.get('second_graph', True) and self.nmat % 2 == 1:
+            # a second graph is built from the same model afterwards; the *older* one is the
+            # one that gets analysed, the younger one must stay as it is
+            o2 = call(self.AttackGraph, mw.lg, mw.models[0])
+            if not o2.raised:
+                self._younger = o2.value
+                self.count('probe:older_of_two_graphs_analysed')
         if self.ref is None:
             ref = RefGraph()
             hm = {}
